@@ -321,20 +321,17 @@ func checkC08Loader(p *Prog, r *Report, ru *Rule, load *ssa.Function) {
 					continue
 				}
 				wrapped = true
-				src := "?"
-				if ex, ok := e.(*ssa.Extract); ok {
-					if sc, ok := ex.Tuple.(*ssa.Call); ok {
-						src = calleeName(sc.Common())
-						if sc == readCall {
-							ru.OK(c, posOf(ret), "wraps the error of reading the cache file itself (%s)", src)
-							continue
-						}
+				for _, src := range errorSources(e, 0) {
+					switch {
+					case src.Call == readCall && nil != readCall:
+						ru.OK(c, posOf(ret), "wraps the error of reading the cache file itself (%s)", src.Name)
+					case "fresh" == src.Name:
+						ru.OK(c, posOf(ret), "wraps a fresh error")
+					case cannotBeNotExist[src.Name]:
+						ru.OK(c, posOf(ret), "wraps an error of %s, which is never fs.ErrNotExist", src.Name)
+					default:
+						ru.Bad(c, posOf(ret), "wraps (%%w) an error of %s: if that is fs.ErrNotExist (e.g. a member missing from a torn archive) the caller takes the damaged cache for a missing one, regenerates and overwrites it", src.Name)
 					}
-				}
-				if cannotBeNotExist[src] {
-					ru.OK(c, posOf(ret), "wraps an error of %s, which is never fs.ErrNotExist", src)
-				} else {
-					ru.Bad(c, posOf(ret), "wraps (%%w) an error of %s: if that is fs.ErrNotExist (e.g. a member missing from a torn archive) the caller takes the damaged cache for a missing one, regenerates and overwrites it", src)
 				}
 			}
 			if !wrapped {
@@ -433,8 +430,98 @@ func flagNameOf(v ssa.Value) string {
 	}
 	c, ok := resolveCell(u.X).(*ssa.Call)
 	if !ok || !strings.HasPrefix(calleeName(c.Common()), "flag.") {
-		return ""
+		/* var x T; flag.TVar(&x, name, ...): the variable is written by
+		flag.Parse only. */
+		al, isAl := resolveFree(u.X).(*ssa.Alloc)
+		if !isAl {
+			return ""
+		}
+		name, n := "", 0
+		for _, f := range withAnons(al.Parent()) {
+			eachInstr(f, func(i ssa.Instruction) {
+				cc := callCommon(i)
+				if nil == cc || 0 == len(cc.Args) {
+					return
+				}
+				cn := calleeName(cc)
+				if strings.HasPrefix(cn, "flag.") && strings.HasSuffix(cn, "Var") && len(cc.Args) >= 2 && resolveFree(cc.Args[0]) == ssa.Value(al) {
+					n++
+					name, _ = constString(cc.Args[1])
+				}
+			})
+		}
+		if 1 != n {
+			return ""
+		}
+		/* No other store than the zero initialisation. */
+		for _, st := range storesTo(al) {
+			if _, isC := st.Val.(*ssa.Const); !isC {
+				return ""
+			}
+		}
+		return name
 	}
 	s, _ := constString(c.Common().Args[0])
 	return s
+}
+
+// errSource is where an error value comes from.
+type errSource struct {
+	Name string /* callee name, "fresh", or "?" */
+	Call *ssa.Call
+}
+
+// errorSources resolves an error value through phis, cells, conversions and
+// %w wrapping to the calls which produced it.
+func errorSources(e ssa.Value, depth int) []errSource {
+	if depth > 6 {
+		return []errSource{{Name: "?"}}
+	}
+	e = stripConv(resolveCell(e), false)
+	switch x := e.(type) {
+	case *ssa.Phi:
+		var out []errSource
+		seen := map[string]bool{}
+		for _, ed := range x.Edges {
+			for _, s := range errorSources(ed, depth+1) {
+				k := fmt.Sprintf("%s/%p", s.Name, s.Call)
+				if !seen[k] {
+					seen[k] = true
+					out = append(out, s)
+				}
+			}
+		}
+		return out
+	case *ssa.Extract:
+		if sc, ok := x.Tuple.(*ssa.Call); ok {
+			return []errSource{{Name: calleeName(sc.Common()), Call: sc}}
+		}
+	case *ssa.Call:
+		switch n := calleeName(x.Common()); n {
+		case "errors.New":
+			return []errSource{{Name: "fresh"}}
+		case "fmt.Errorf":
+			f, _ := constString(x.Common().Args[0])
+			if !strings.Contains(f, "%w") {
+				return []errSource{{Name: "fresh"}}
+			}
+			var out []errSource
+			for _, a := range variadicElems(x.Common()) {
+				if typeIsError(a) {
+					out = append(out, errorSources(a, depth+1)...)
+				}
+			}
+			if 0 == len(out) {
+				return []errSource{{Name: "fresh"}}
+			}
+			return out
+		default:
+			return []errSource{{Name: n, Call: x}}
+		}
+	case *ssa.Const:
+		if x.IsNil() {
+			return nil
+		}
+	}
+	return []errSource{{Name: "?"}}
 }
